@@ -750,8 +750,20 @@ class GuardLock(object):
         self.owner = None
         self.deadlocks = 0
         self.blocked = 0
+        self.before_grant = None     # one-shot: what another thread does when
+        self.as_other = False        # it gets the lock just before the caller
 
     def acquire(self, blocking=True, timeout=-1):
+        if not self._lock.locked() and self.before_grant is not None \
+                and not self.as_other:
+            # preemption at the lock acquisition: another thread wins the
+            # race for the free lock, does its work and releases it
+            fn, self.before_grant = self.before_grant, None
+            self.as_other = True
+            try:
+                fn()
+            finally:
+                self.as_other = False
         if self._lock.locked():
             if not blocking:
                 return False
@@ -762,7 +774,7 @@ class GuardLock(object):
             raise HarnessLimit("clf.lock acquired while held: deadlock")
         r = self._lock.acquire(blocking, timeout)
         if r:
-            self.owner = "caller"
+            self.owner = "other" if self.as_other else "caller"
         return r
 
     def release(self):
